@@ -22,6 +22,11 @@ package server
 
 //@ func checkMllamaModelFamily
 //@   modifies nothing
+//   the image token weight (1 per image for mllama, 768 otherwise) and the image preprocessing hang on
+//   this test: it is true exactly when "mllama" is one of the model's families
+//@   ensures result ==> exists k int :: 0 <= k && k < len(m.Config.ModelFamilies) && m.Config.ModelFamilies[k] == "mllama"
+//@   ensures !result ==> forall k int :: 0 <= k && k < len(m.Config.ModelFamilies) ==> m.Config.ModelFamilies[k] != "mllama"
+//@   loop 1 invariant forall k int :: 0 <= k && k <= rangeindex ==> m.Config.ModelFamilies[k] != "mllama"
 
 // Ghost names used by the chatPrompt contract. The first three are introduced by definitional
 // preconditions: for every conversation there is an interpretation that satisfies them, so they do
@@ -116,4 +121,49 @@ package server
 //@   assert-at call append #5 : forall k int :: currMsgIdx <= k && k < len(msgs) - 1 ==> c19tok(k) + ite(m.ProjectorPaths != nil, imageNumTokens * (c19nimg(len(msgs)) - c19nimg(k)), 0) <= opts.NumCtx
 //   the returned images are exactly those of the retained messages (none of a dropped message).
 //@   assert-at call append #5 : len(images) == c19nimg(len(msgs)) - c19nimg(currMsgIdx)
+//
+//   ---- added by the contract audit (clauses appended; numbering of the clauses above unchanged) ----
+//   THE MESSAGE LIST HANDED TO THE TEMPLATE (final rendering): it is exactly the kept system messages
+//   followed by the retained messages msgs[currMsgIdx:], one entry each, in their original order
+//   (so the latest message is its last entry), and the tools of the request are passed along.
+//@   assert-at call Execute #2 : len(arg2.Messages) == len(system) + len(msgs) - currMsgIdx
+//@   assert-at call Execute #2 : forall p int :: 0 <= p && p < len(system) ==> arg2.Messages[p].Role == system[p].Role && arg2.Messages[p].Content == system[p].Content
+//@   assert-at call Execute #2 : forall k int :: currMsgIdx <= k && k < len(msgs) ==> arg2.Messages[len(system) + k - currMsgIdx].Role == msgs[k].Role && arg2.Messages[len(system) + k - currMsgIdx].Content == msgs[k].Content
+//@   assert-at call Execute #2 : len(arg2.Tools) == len(tools) && (len(tools) > 0 ==> &arg2.Tools[0] == &tools[0])
+//   THE CANDIDATE whose token count decides whether msgs[i] is retained is the same composition
+//   for start i: the system messages among msgs[0:i], then msgs[i:], with the same tools.
+//@   assert-at call Execute #1 : len(arg2.Messages) == len(system) + len(msgs) - i
+//@   assert-at call Execute #1 : forall p int :: 0 <= p && p < len(system) ==> arg2.Messages[p].Role == system[p].Role && arg2.Messages[p].Content == system[p].Content
+//@   assert-at call Execute #1 : forall k int :: i <= k && k < len(msgs) ==> arg2.Messages[len(system) + k - i].Role == msgs[k].Role && arg2.Messages[len(system) + k - i].Content == msgs[k].Content
+//@   assert-at call Execute #1 : len(arg2.Tools) == len(tools) && (len(tools) > 0 ==> &arg2.Tools[0] == &tools[0])
+//   THE REWRITTEN TEXT of a retained message is tag prefix + image prompt + (substituted) text, it is
+//   written to the message it was computed from, and messages that are not retained - in particular the
+//   kept system messages - and retained messages not yet visited keep their text.
+//@   ghost-at entry : ghost_c19acc := 0
+//@   ghost-at entry : ghost_c19base := 0
+//@   ghost-at entry : ghost_c19w := 0
+//@   assert-at store Content #1 : stored == prefix + imgPrompt + prompt
+//@   ghost-at store Content #1 : ghost_c19w := len(stored)
+//@   ghost-at store Content #1 : ghost_c19base := ghost_c19acc
+//@   loop 4 invariant forall q int :: 0 <= q && q < len(msgs) && (q < currMsgIdx || q > currMsgIdx + rangeindex) ==> msgs[q].Content == old(msgs[q].Content)
+//@   loop 4 invariant rangeindex >= 0 ==> len(msgs[currMsgIdx + rangeindex].Content) == ghost_c19w
+//@   loop 5 invariant forall q int :: 0 <= q && q < len(msgs) && (q < currMsgIdx || q >= currMsgIdx + cnt) ==> msgs[q].Content == old(msgs[q].Content)
+//@   loop 5 invariant cnt >= 1 ==> len(msgs[currMsgIdx + cnt - 1].Content) == ghost_c19w
+//   NO TAG IS LOST: every character of every tag produced for the message is in prefix or in the text
+//   (ghost_c19acc adds the length of each tag and the length change of each placeholder substitution;
+//   ghost_c19base is its value when the previous message was written back).
+//@   ghost-at after call Sprintf #1 : ghost_c19acc := ghost_c19acc + len(result)
+//@   ghost-at after call strings.Replace #1 : ghost_c19acc := ghost_c19acc + len(result) - len(arg0) - len(arg2)
+//@   loop 4 invariant ghost_c19base == ghost_c19acc
+//@   loop 5 invariant len(prefix) + len(prompt) == len(msg.Content) + ghost_c19acc - ghost_c19base
+//@   assert-at call Sprintf #1 : arg0 == "[img-%d]" && len(arg1) == 1
+//   the image data sent is the image of the message (no preprocessing outside the mllama projector path)
+//@   assert-at call append #4 : !(isMllama && len(m.ProjectorPaths) != 0) ==> len(imgData.Data) == len(i) && (len(i) > 0 ==> &imgData.Data[0] == &i[0])
+//   the walk itself does not touch any message text
+//@   loop 1 invariant forall q int :: 0 <= q && q < len(msgs) ==> msgs[q].Content == old(msgs[q].Content)
+//@   loop 2 invariant forall q int :: 0 <= q && q < len(msgs) ==> msgs[q].Content == old(msgs[q].Content)
+//@   loop 1 invariant ghost_c19base == 0 && ghost_c19acc == 0
+//@   loop 2 invariant ghost_c19base == 0 && ghost_c19acc == 0
+//@   loop 3 invariant ghost_c19base == 0 && ghost_c19acc == 0
+
 // ---- end C19 ----
